@@ -29,7 +29,9 @@ fn run_bits(tree: &Tree, game: &crate::subject::G, method: RefMethod, preset: us
     // threads == 1: the public single-threaded path; threads == 2: the multi-threaded implementation
     // with a single-task frontier (task target 1), which is deterministic to the last bit
     let target = if threads == 1 { None } else { Some(1) };
-    let out = guarded(|| run_impl(tree, game, method, iters, max_reg, threads, target, Some(preset_impl(preset)), &decider)).map_err(|m| format!("panic: {}", m))??;
+    let solve = || guarded(|| run_impl(tree, game, method, iters, max_reg, threads, target, Some(preset_impl(preset)), &decider));
+    // multi-threaded solves one at a time (building thread pools concurrently is slow here)
+    let out = if threads == 1 { solve() } else { crate::multi::gated(solve) }.map_err(|m| format!("panic: {}", m))??;
     Ok((
         [out.raw[0].iter().map(|x| x.to_bits()).collect(), out.raw[1].iter().map(|x| x.to_bits()).collect()],
         [out.bounds[0].to_bits(), out.bounds[1].to_bits()],
@@ -132,8 +134,10 @@ pub fn run(ctx: &Ctx) -> i32 {
                 check_game(ctx, tree, method, *preset, nmax, ctx.seed.wrapping_add(gi as u64), 1);
                 // the multi-threaded implementation builds a thread pool per solve (~0.1 ms), so it
                 // is explored on the small games only, with a shorter horizon
-                if tree.num_internal() <= 2 || (ctx.thorough() && tree.num_internal() <= 3 && gi % 4 == 0) {
-                    check_game(ctx, tree, method, *preset, nmax.min(5), ctx.seed.wrapping_add(gi as u64), 2);
+                // (every solve builds a thread pool, 0.1 - 3 ms depending on the machine's mood: a
+                // sixteenth of the small games in the quick tier, with a horizon of 4)
+                if (tree.num_internal() <= 2 && (ctx.thorough() || gi % 16 == 0)) || (ctx.thorough() && tree.num_internal() <= 3 && gi % 16 == 0) || tree.num_internal() > 6 && tree.num_internal() < 12 {
+                    check_game(ctx, tree, method, *preset, nmax.min(4), ctx.seed.wrapping_add(gi as u64), 2);
                     ctx.count("multi_threaded_implementation_(game,method,preset)", 1);
                 }
                 if method != RefMethod::Full {
